@@ -111,7 +111,10 @@ def sums_layer(ctx, conn):
         for f, g in [('units({})', 'units({})'), ('cost({})', 'cost({})'), ('value({})', 'value({})'),
                      ("convert({}, 'USD')", "convert({}, 'USD')"), ("convert({}, 'EUR')", "convert({}, 'EUR')"),
                      ('value({}, 2020-06-30)', 'value({}, 2020-06-30)'),
-                     ("convert({}, 'EUR', 2020-06-30)", "convert({}, 'EUR', 2020-06-30)")] + dated:
+                     ("convert({}, 'EUR', 2020-06-30)", "convert({}, 'EUR', 2020-06-30)"),
+                     # the amount overloads (through units / cost of a position), also towards a currency nothing is priced in
+                     ("convert(units({}), 'EUR')", "convert(units({}), 'EUR')"), ("convert(units({}), 'CHF')", "convert(units({}), 'CHF')"),
+                     ("convert(cost({}), 'EUR')", "convert(cost({}), 'EUR')"), ("convert({}, 'CHF')", "convert({}, 'CHF')")] + dated:
             # grouped by account, by transaction (the legs of one currency cancel to exactly zero) and over everything
             for key in ('account', 'id', "'all'"):
                 q = 'SELECT %s AS k, %s AS a, sum(%s) AS b FROM #postings%s GROUP BY %s' % (
